@@ -436,6 +436,7 @@ def v2_roundtrips(ctx: Ctx, n: int):
 
 # ---------------------------------------------------------------------------------------------------- entry points
 def run(ctx: Ctx):
+    G.cap_violations(ctx)
     ctx.impl_traces = 0
     v1_sequences(ctx, ctx.scale(700, 12000))
     v1_fee_sweep(ctx, ctx.scale(1500, 40000))
